@@ -213,6 +213,14 @@ func (node *CallGraphPipeline) resolvePipelineOuts(
 			if err != nil {
 				errs = append(errs, err)
 			}
+			if s, ok := exp.(*SplitExp); ok {
+				// Disabled in only some forks of an enclosing map call.
+				if t, err := lookup.AddDim(
+					lookup.Get(TypeId{Tname: node.pipeline.Id}),
+					s.Source.CallMode()); err == nil {
+					s.Type = t
+				}
+			}
 		}
 		tid := TypeId{Tname: node.pipeline.Id}
 		if node.split != nil {
